@@ -1,7 +1,9 @@
 (** Evaluator glue for C06: runs the model of the legacy rewrites on the
     tables and queries the harness ran processRewrites / CheckHost on. *)
 From Coq Require Export String.
-From AGH Require Import Base.Run Model.Rewrites.
+From Coq Require Import NArith List.
+From AGH Require Import Base.Run Model.Rewrites Model.RewritesEdit.
+Import ListNotations.
 Local Open Scope N_scope.
 
 (** What the implementation was observed to do for one call. *)
@@ -26,7 +28,23 @@ Inductive robs :=
   (* the handler returned an error; the message it left to be sent *)
   | RFail (calls : list (string * N)) (qname : string) (rcode : N) (ans : list xrr).
 
+(** Edit histories (Model/RewritesEdit.v): a request as sent, and what was
+    observed after it: the list GET /control/rewrite/list reports and
+    CheckHost for every queried name x {A, AAAA, third type}, in that order. *)
+Inductive xop :=
+  | XAdd (d a : string) | XDel (d a : string) | XUpd (td ta nd na : string) | XBad.
+
+Inductive sobs := SO (l : list (string * string)) (os : list obs).
+
 Inductive case :=
+  (* an edit history through the HTTP handlers: the texts netip.ParseAddr
+     accepts (every other text is no address), the queried names, the third
+     query type, the configured table, the observation before any request,
+     and per request: the request, the status class (0 = 200, 1 = 400,
+     2 = anything else), the observation after it *)
+  | CEdit (orc : list (string * (bool * N))) (qn : list string) (q3 : N)
+          (init : list (string * string)) (s0 : sobs)
+          (steps : list (xop * N * sobs))
   (* the same table, served by a dnsforward.Server with the scripted
      upstream [ups]; queries: name, qtype, observed response *)
   | CResp (enabled : bool) (tbl : list (string * string * option (bool * N)))
@@ -44,6 +62,11 @@ Definition I6 (v : N) : bool * N := (false, v).
 Definition E (d a : string) (p : option (bool * N)) := (d, a, p).
 Definition Q (h : string) (qt : N) (o1 o2 : obs) := (h, qt, o1, o2).
 Definition QR (h : string) (qt : N) (o : robs) := (h, qt, o).
+
+Definition P (d a : string) := (d, a).
+Definition QN (s : string) : string := s.
+Definition OR (s : string) (p : bool * N) := (s, p).
+Definition ST (o : xop) (st : N) (so : sobs) := (o, st, so).
 
 Definition mk_ip (p : bool * N) : ip := {| ip_is4 := fst p; ip_val := snd p |}.
 
@@ -138,8 +161,69 @@ Definition robs_ok (m : option (bool * response)) (o : robs) : bool :=
 Definition rquery_ok (enabled : bool) (t : list entry) (q : string * N * robs) : bool :=
   let '(h, qt, o) := q in robs_ok (respond_e isort ups enabled t (bs h) qt) o.
 
+(** ** Edit histories *)
+
+(** netip.ParseAddr as recorded by the harness. *)
+Definition parse_of (orc : list (bytes * ip)) (a : bytes) : option ip :=
+  match find (fun p => eqb_bytes (fst p) a) orc with
+  | Some p => Some (snd p)
+  | None => None
+  end.
+
+Definition mk_orc (orc : list (string * (bool * N))) : list (bytes * ip) :=
+  map (fun p : string * (bool * N) => (bs (fst p), mk_ip (snd p))) orc.
+
+Definition mk_pair (p : string * string) : bytes * bytes := (bs (fst p), bs (snd p)).
+
+Definition mk_op (o : xop) : eop :=
+  match o with
+  | XAdd d a => EAdd (bs d) (bs a)
+  | XDel d a => EDel (bs d) (bs a)
+  | XUpd td ta nd na => EUpd (bs td) (bs ta) (bs nd) (bs na)
+  | XBad => EBad
+  end.
+
+Definition status_code (s : status) : N := match s with StOK => 0 | StBad => 1 end.
+
+Fixpoint all2 {A B} (f : A -> B -> bool) (l1 : list A) (l2 : list B) : bool :=
+  match l1, l2 with
+  | [], [] => true
+  | a :: l1, b :: l2 => f a b && all2 f l1 l2
+  | _, _ => false
+  end.
+
+Definition eqb_pair (a b : bytes * bytes) : bool :=
+  eqb_bytes (fst a) (fst b) && eqb_bytes (snd a) (snd b).
+
+Definition edit_queries (qn : list string) (q3 : N) : list (bytes * N) :=
+  flat_map (fun h : string => let b := bs h in [(b, qA); (b, qAAAA); (b, q3)]) qn.
+
+Definition list_ok (tbl : list entry) (so : sobs) : bool :=
+  let 'SO l _ := so in eqb_list eqb_pair (reported tbl) (map mk_pair l).
+
+Definition answers_ok (qs : list (bytes * N)) (tbl : list entry) (so : sobs) : bool :=
+  let 'SO _ os := so in
+  all2 (fun (q : bytes * N) o => obs_ok (check_host isort true tbl (fst q) (snd q)) o) qs os.
+
+Fixpoint steps_ok (parse : bytes -> option ip) (qs : list (bytes * N)) (tbl : list entry)
+    (steps : list (xop * N * sobs)) : bool :=
+  match steps with
+  | [] => true
+  | (o, st, so) :: rest =>
+      let '(tbl', s) := apply_op parse tbl (mk_op o) in
+      (status_code s =? st) && list_ok tbl' so && answers_ok qs tbl' so &&
+      steps_ok parse qs tbl' rest
+  end.
+
+Definition edit_ok orc qn q3 (init : list (string * string)) s0 steps : bool :=
+  let parse := parse_of (mk_orc orc) in
+  let qs := edit_queries qn q3 in
+  let tbl := load parse (map mk_pair init) in
+  list_ok tbl s0 && answers_ok qs tbl s0 && steps_ok parse qs tbl steps.
+
 Definition case_ok (c : case) : bool :=
   match c with
+  | CEdit orc qn q3 init s0 steps => edit_ok orc qn q3 init s0 steps
   | CResp en tbl qs => let t := table tbl in forallb (rquery_ok en t) qs
   | CTab en tbl qs => let t := table tbl in forallb (query_ok en t) qs
   end.
@@ -155,8 +239,38 @@ Definition show (m : option rw_result) : N * bytes * list (bool * N) :=
                map (fun i => (ip_is4 i, ip_val i)) (r_ips r))
   end.
 
+(** Replay of an edit history: per observation point one line
+    (status and list agree, (model status, first stored domain, []),
+    (number of stored entries, [], [])), then one line per query. *)
+Definition explain_point (qs : list (bytes * N)) (tbl : list entry) (stat_ok : bool)
+    (st : N) (so : sobs) :=
+  (stat_ok && list_ok tbl so,
+   (st, match tbl with e :: _ => e_dom e | [] => [] end, @nil (bool * N)),
+   (N.of_nat (List.length tbl), @nil N, @nil (bool * N))) ::
+  (let 'SO _ os := so in
+   map (fun q : bytes * N =>
+          (true, show (check_host isort true tbl (fst q) (snd q)), (snd q, fst q, @nil (bool * N))))
+       qs ++
+   [(answers_ok qs tbl so, (N.of_nat (List.length os), @nil N, @nil (bool * N)),
+     (N.of_nat (List.length qs), @nil N, @nil (bool * N)))]).
+
+Fixpoint explain_steps (parse : bytes -> option ip) (qs : list (bytes * N)) (tbl : list entry)
+    (steps : list (xop * N * sobs)) :=
+  match steps with
+  | [] => []
+  | (o, st, so) :: rest =>
+      let '(tbl', s) := apply_op parse tbl (mk_op o) in
+      explain_point qs tbl' (status_code s =? st) (status_code s) so ++
+      explain_steps parse qs tbl' rest
+  end.
+
 Definition explain (c : case) :=
   match c with
+  | CEdit orc qn q3 init s0 steps =>
+      let parse := parse_of (mk_orc orc) in
+      let qs := edit_queries qn q3 in
+      let tbl := load parse (map mk_pair init) in
+      explain_point qs tbl true 0 s0 ++ explain_steps parse qs tbl steps
   | CResp en tbl qs =>
       let t := table tbl in
       map (fun q : string * N * robs =>
